@@ -197,7 +197,7 @@ def scenarios(ctx):
                                     disconnect=1)))
         out.append(Std('live-resume-v%d' % ver, profile='pub', mode='sync', closing=False,
                        init=(('connect', 0, False, 0, ver), ('connack', 0, 0, False), ('setwin', 0, 2)),
-                       connects=[(False, 0, ver)], reconnects=[(False, 0, ver)], pub_qos=(1, 2),
+                       connects=[(False, 0, ver)], reconnects=[(False, 0, ver)], pub_qos=(1, 2), pub_retain=(False, True),
                        budgets=dict(pub=2 if q else 3, ack=1 if q else 3, tick=2 if q else 3, lose=1 if q else 2, rebuild=1 if q else 2,
                                     connect=1 if q else 2, connack=1 if q else 2)))
         out.append(Std('live-sub-v%d' % ver, profile='pubsub', mode='async', closing=False,
